@@ -2,6 +2,7 @@ import RTA.Lemmas.FpSound
 import RTA.Lemmas.FpSoundEq
 import RTA.Lemmas.FpSoundEqExample
 import RTA.Lemmas.FpSoundCompliant
+import RTA.Lemmas.FpSoundCompliantExample
 /-! # C01 — the fixed-priority RTAs are safe for every legal schedule
 
 Spec: `RTA/Spec/Sched.lean` — discrete-time schedules on a dedicated unit-speed processor;
@@ -200,5 +201,14 @@ theorem limited_preemptive_safe_task_set (s : Sys) (ts : List (Arr × Cost)) (pr
     ∀ j, j < s.n → s.task j = i → MeetsBound s j R :=
   fp_limited_sound_of_compliant s ts pr i hi a C last hts hwf hexa hex hc hl B hblock hpos
     hlast1 hlastC hown limit R hR
+
+/-- non-vacuity of the task-set level theorems: the two-task system of
+`equal_priorities_nonvacuous` complies with the task set `[(periodic 10, 1), (periodic 10, 1)]`,
+`hepOthers` is the other (equal-priority) task, and `fully_preemptive_safe_task_set` applies -/
+theorem task_set_nonvacuous :
+    Compliant FpEqExample.eqSys FpEqExample.eqTs ∧
+    hepOthers FpEqExample.eqTs FpEqExample.eqPr 0 = [FpEqExample.tua] ∧
+    (∀ j, j < FpEqExample.eqSys.n → FpEqExample.eqSys.task j = 0 → MeetsBound FpEqExample.eqSys j 2) :=
+  ⟨FpEqExample.eqSys_compliant, FpEqExample.eqSys_hepOthers, FpEqExample.eqSys_meets_task_set⟩
 
 end RTA.C01
